@@ -229,7 +229,7 @@ func NativeReplay(repoDir, harnessDir string, fixtures []*Fixture, race bool, ti
 	return results, nil
 }
 
-var engineOnly = map[string]bool{"uncaught-panic": true, "use-after-put": true, "pool-double-put": true, "deadlock": true, "unlock-unlocked": true, "unbounded-recursion": true}
+var engineOnly = map[string]bool{"uncaught-panic": true, "use-after-put": true, "pool-double-put": true, "deadlock": true, "unlock-unlocked": true, "unbounded-recursion": true, "unbounded-time": true}
 
 // CompareOutputs reports mismatches between engine-predicted and native outputs.
 func CompareOutputs(fx *Fixture, r *ReplayResult) []string {
